@@ -6,7 +6,7 @@
 (***************************************************************************)
 EXTENDS AttrsFold, SlotFlagsOps, SequencesExt
 
-CONSTANTS MaxAttrs, Names3, TreeDepth
+CONSTANTS MaxAttrs, Names3, TreeDepth, WithInput
 
 S(cp) == Str(cp)
 Names == {"class", "style", "key", "ref", "onClick", "onFoo", "foo", "id"}
@@ -43,7 +43,7 @@ Atoms3 == {a \in Atoms : KeyOf(a) \in Names3}
 AttrSeqs == {as \in SeqsUpTo(Atoms, MaxAttrs) : NoRepeat(as)}
             \cup {as \in [1..3 -> Atoms3] : NoRepeat(as)}
 
-Hosts == {TagHtml("div"), TagHtml("input"), TagComp("Foo", TRUE, Opq("vFoo"))}
+Hosts == {TagHtml("div"), TagComp("Foo", TRUE, Opq("vFoo"))} \cup (IF WithInput THEN {TagHtml("input")} ELSE {})
 Opt(ton, opt) == [DefaultOpts EXCEPT !.transformOn = ton, !.optimize = opt]
 
 AttrCases == {[kind |-> "attrs", elem |-> Elem(h, as, <<>>), opts |-> Opt(ton, TRUE)] :
@@ -57,6 +57,10 @@ Trees(d) ==
   IF d = 0 THEN Leafs
   ELSE Leafs \cup {ChElem(Elem(t, <<>>, cs)) : t \in {TagComp("A" \o ToString(d), FALSE, Undef), TagHtml("div"), TagFrag},
                                               cs \in SeqsFromTo(Trees(d - 1), 1, 2)}
+(* deep nesting: chains of single-child elements / components / fragments down to a leaf *)
+RECURSIVE Chains(_)
+Chains(d) == IF d = 0 THEN Leafs
+             ELSE Leafs \cup {ChElem(Elem(t, <<>>, <<c>>)) : t \in {TagComp("A" \o ToString(d), FALSE, Undef), TagHtml("div"), TagFrag}, c \in Chains(d - 1)}
 TreeCases == {[kind |-> "tree", elem |-> Elem(TagComp("Root", FALSE, Undef), <<>>, cs), opts |-> Opt(FALSE, opt)] :
-                cs \in SeqsFromTo(Trees(TreeDepth), 1, 2), opt \in BOOLEAN}
+                cs \in SeqsFromTo(Trees(TreeDepth), 1, 2) \cup {<<c>> : c \in Chains(4)}, opt \in BOOLEAN}
 =============================================================================
